@@ -55,12 +55,16 @@ def gen_instances(ck: Check):
         small = rng.sample(small, 500)
     for W, H, rows in small:
         yield "exh", "s", W, H, rows
-    # boundary: bin sizes up to 1e12 (+1 rejected), repetitions up to 1e8 (+1 rejected), n_items up to 1e12 (+1 rejected)
+    # boundary: bin sizes up to 1e12 (+1 rejected), repetitions up to 1e8 (+1 rejected), n_items up to 1e12 (+1 rejected).
+    # The constructor's Dell'Amico bound costs Theta(min(W,H)) + Theta(sum of rep * #squares of the item), so huge values
+    # are only combined with a small second bin dimension and unit-height items.
     big = 10**12
-    for W, H in ((big, big), (big, 1), (1, big), (big + 1, 5), (5, big + 1), (big - 1, big), (0, 5), (5, 0)):
-        yield "boundary", "b1", W, H, [[min(W, big), 1, 1], [1, min(H, big), 10**8]]
+    for W, H in ((big, 1), (1, big), (big, 7), (9, big), (big + 1, 5), (5, big + 1), (big - 1, 2), (0, 5), (5, 0)):
+        m = max(1, min(W, H, big))
+        yield "boundary", "b1", W, H, [[min(W, big), 1, 1], [1, min(H, big), 10**8]] if m == 1 else \
+            [[min(max(W, H), big), 1, 1], [1, 1, 10**8], [m, m, 2]]
         yield "boundary", "b2", W, H, [[1, 1, 10**8 + 1]]
-    rows = [[1 + (i % 7), 1 + (i % 5), 10**8] for i in range(10**4)]
+    rows = [[1 + (i % 7), 1, 10**8] for i in range(10**4)]
     yield "boundary", "n1e12", 10, 10, rows
     yield "boundary", "n1e12p1", 10, 10, rows[:-1] + [[1, 1, 10**8], [2, 2, 1]]
     # dtype thresholds: max_dim + max_size + 1 and n_items + 1 around every signed limit
@@ -71,7 +75,7 @@ def gen_instances(ck: Check):
             ms = v - 1 - md
             if 1 <= ms <= md:
                 yield "dtype", "d", md, 3, [[ms, 1, 1], [1, 2, 3]]
-                yield "dtype", "d", 3, md, [[2, ms, 1]]
+                yield "dtype", "d", 3, md, [[1, ms, 1]]
             if v - 1 >= 1:
                 n_it = v - 1
                 rows, left = [], n_it
@@ -88,19 +92,22 @@ def gen_instances(ck: Check):
         yield "fit", "f", 10, 5, rows
     # structured random
     for _ in range(250 if quick else 5000):
-        W = rng.choice([1, 2, 9, 10, 99, 100, 1000, 12345, 10**6, 10**9, 10**12])
-        H = rng.choice([1, 3, 10, 50, 999, 10**5, 10**12])
+        small = rng.choice([1, 2, 3, 9, 10, 50, 99, 100, 1000])
+        large = rng.choice([1, 2, 9, 10, 99, 100, 1000, 12345, 10**6, 10**9, 10**12])
+        W, H = (small, large) if rng.random() < 0.5 else (large, small)
         k = rng.choice([1, 1, 2, 3, 5, 8, 20])
         rows = []
         for _ in range(k):
             lo, hi = min(W, H), max(W, H)
-            if rng.random() < 0.5:
-                w, h = rng.randint(1, lo), rng.randint(1, hi)
+            if rng.random() < 0.5:      # a long thin item (unit height), any repetition count
+                a, b = rng.randint(1, hi), 1
+                rep = rng.choice([1, 1, 2, 3, 10, 11, 100, 99999, 10**8])
             else:
-                w, h = rng.randint(1, hi), rng.randint(1, lo)
+                a, b = rng.randint(1, min(hi, 1000)), rng.randint(1, lo)
+                rep = rng.choice([1, 1, 1, 2, 3, 10, 11, 100])
             if rng.random() < 0.03:
-                w = hi + 1
-            rep = rng.choice([1, 1, 1, 2, 3, 10, 11, 100, 99999, 10**8])
+                a = hi + 1
+            w, h = (a, b) if rng.random() < 0.5 else (b, a)
             rows.append([w, h, rep])
         yield "random", rng.choice(["r", "r1", "abc_9", "Zz"]), W, H, rows
     # shipped instances
@@ -113,7 +120,7 @@ def gen_instances(ck: Check):
 
 def malformed_compact(ck: Check):
     rng = ck.rng
-    base = ["x;2;500;50;3,5;2,5,2", "ab1;1;7;7;7,7", "q;3;10;20;1,1;20,10,100000000;5,5,3",
+    base = ["x;2;500;50;3,5;2,5,2", "ab1;1;7;7;7,7", "q;3;10;20;1,1;20,1,100000000;5,5,3",
             "big;2;1000000000000;1;1000000000000,1;1,1,99"]
     out = []
     for b in base:
@@ -128,8 +135,9 @@ def malformed_compact(ck: Check):
         toks = b.split(";")
         for i in range(len(toks)):                   # tokens replaced
             for r in ("x", "", "1.5", "-3", "0", "1e3", "0x10", "--1", "1,", ",1", "1,2,3,4", "3,5,1", "1,x", "1,1,x",
-                      "1,1,0", "1,1,100000001", "1000000000001", "100000001"):
+                      "1,1,0", "1,1,100000001", "1000000000001"):
                 out.append(";".join(toks[:i] + [r] + toks[i + 1:]))
+        out.append(";".join([toks[0], "100000001"] + toks[2:]))      # n beyond the limit
         out.append(b + ";9,9")                       # extra tokens are ignored by the reader
         out.append(b + ";")
         out.append(";".join([toks[0], str(int(toks[1]) + 1)] + toks[2:]))   # n too large
